@@ -16,7 +16,7 @@ from .model import AnalysisError, Program
 from .report import Ctx, split_known, write_evidence, write_replay
 
 
-ROBUST_RULES = ("ID", "G5", "M9")
+ROBUST_RULES = ("ID", "G5", "M9", "G1f")
 
 
 def run_rules(prop, repo, tier="quick", seed=0):
